@@ -499,4 +499,118 @@ theorem subgraph_weak_check_witness_raise :
     (G.mk 3 [(1, 2)]).subgraph [0, 1, 2] (some [(0, 0), (1, 2), (2, 2)]) = none := by
   decide
 
+
+/-! ### exact error cases -/
+
+/-- exact error cases: `none` iff one of the checks of the code fails, or all pass and two
+adjacent vertices are merged (then the constructor raises).  (The hypothesis "keys of the dict
+are distinct" is not needed.) -/
+theorem subgraph_none_iff (g : G) (hwf : g.WF) (loc : List Nat) (ren : List (Nat × Nat)) :
+    g.subgraph loc (some ren) = none ↔
+      (¬ (loc.Nodup ∧ ∀ q ∈ loc, q < g.n))                       -- TypeError: invalid location
+      ∨ ren.length ≠ loc.length                                   -- ValueError: size
+      ∨ ¬ (∀ q, q ∈ ren.map (·.1) ↔ q ∈ loc)                      -- ValueError: keys
+      ∨ loc = []                                                  -- ValueError from min() of empty
+      ∨ ¬ ((∀ v ∈ ren.map (·.2), v ≤ loc.length - 1) ∧ 0 ∈ ren.map (·.2) ∧
+            (loc.length - 1) ∈ ren.map (·.2))                     -- min = 0, max = len-1
+      ∨ (∃ a ∈ loc, ∃ b ∈ loc, g.hasEdge a b = true ∧ lookup ren a = lookup ren b) := by
+  constructor
+  · intro hnone
+    by_cases h1 : loc.Nodup ∧ ∀ q ∈ loc, q < g.n
+    case neg => exact Or.inl h1
+    by_cases h2 : ren.length = loc.length
+    case neg => exact Or.inr (Or.inl h2)
+    by_cases h3 : ∀ q, q ∈ ren.map (·.1) ↔ q ∈ loc
+    case neg => exact Or.inr (Or.inr (Or.inl h3))
+    by_cases h4 : loc = []
+    case pos => exact Or.inr (Or.inr (Or.inr (Or.inl h4)))
+    by_cases h5 : (∀ v ∈ ren.map (·.2), v ≤ loc.length - 1) ∧ 0 ∈ ren.map (·.2) ∧
+            (loc.length - 1) ∈ ren.map (·.2)
+    case neg => exact Or.inr (Or.inr (Or.inr (Or.inr (Or.inl h5))))
+    by_cases h6 : Merged g loc ren
+    case pos => exact Or.inr (Or.inr (Or.inr (Or.inr (Or.inr h6))))
+    have := subgraph_some_of_checks g hwf loc ren ⟨h1, h2, h3, h4, h5⟩ h6
+    rw [hnone] at this
+    exact absurd this (by simp)
+  · rintro (h | h | h | h | h | h)
+    · exact subgraph_none_of_not_checks g loc ren (fun hc => h hc.1)
+    · exact subgraph_none_of_not_checks g loc ren (fun hc => h hc.2.1)
+    · exact subgraph_none_of_not_checks g loc ren (fun hc => h hc.2.2.1)
+    · exact subgraph_none_of_not_checks g loc ren (fun hc => hc.2.2.2.1 h)
+    · exact subgraph_none_of_not_checks g loc ren (fun hc => h hc.2.2.2.2)
+    · exact subgraph_none_of_merged g hwf loc ren h
+
+/-- every disjunct of `subgraph_none_iff` is realised while the earlier ones are not -/
+example : (G.mk 3 [(0, 1)]).subgraph [0, 0] (some [(0, 0), (0, 1)]) = none := by decide
+example : (G.mk 3 [(0, 1)]).subgraph [0, 3] (some [(0, 0), (3, 1)]) = none := by decide
+example : (G.mk 3 [(0, 1)]).subgraph [0, 1] (some [(0, 0)]) = none := by decide
+example : (G.mk 3 [(0, 1)]).subgraph [0, 1] (some [(0, 0), (2, 1)]) = none := by decide
+example : (G.mk 3 [(0, 1)]).subgraph [] (some []) = none := by decide
+example : (G.mk 3 [(0, 1)]).subgraph [0, 1] (some [(0, 1), (1, 2)]) = none := by decide
+example : (G.mk 3 [(0, 1)]).subgraph [0, 1] (some [(0, 0), (1, 0)]) = none := by decide
+example : (G.mk 3 [(0, 1)]).subgraph [0, 1, 2] (some [(0, 0), (1, 0), (2, 2)]) = none := by decide
+example : (G.mk 3 [(0, 1)]).subgraph [0, 1] (some [(0, 1), (1, 0)]) = some ⟨2, [(0, 1)]⟩ := by
+  decide
+
+/-- the general (possibly non-injective) accepted case: the quotient graph -/
+theorem subgraph_quotient_spec (g : G) (hwf : g.WF) (loc : List Nat) (ren : List (Nat × Nat))
+    (hc : ChecksOK g loc ren)
+    (hm : ¬ ∃ a ∈ loc, ∃ b ∈ loc, g.hasEdge a b = true ∧ lookup ren a = lookup ren b) :
+    ∃ h, g.subgraph loc (some ren) = some h ∧ h.n = loc.length ∧ h.WF ∧
+      ∀ x y, h.hasEdge x y = true ↔
+        ∃ a ∈ loc, ∃ b ∈ loc, x = lookup ren a ∧ y = lookup ren b ∧ g.hasEdge a b = true := by
+  have hself : ∀ e ∈ subRaw g loc ren, e.1 ≠ e.2 := by
+    intro e he h
+    obtain ⟨a, ha, b, hb, hab, rfl⟩ := (mem_subRaw g hwf loc ren e).1 he
+    exact hm ⟨a, ha, b, hb, hab, h⟩
+  refine ⟨_, subgraph_some_of_checks g hwf loc ren hc hm, rfl,
+    wf_mk _ _ hself (subRaw_lt g hwf loc ren hc), ?_⟩
+  intro x y
+  rw [hasEdge_mk]
+  constructor
+  · rintro ⟨e, he, h⟩
+    obtain ⟨a, ha, b, hb, hab, rfl⟩ := (mem_subRaw g hwf loc ren e).1 he
+    rcases h with h | h
+    · have h := Prod.mk.inj h
+      exact ⟨a, ha, b, hb, h.1.symm, h.2.symm, hab⟩
+    · have h := Prod.mk.inj h
+      exact ⟨b, hb, a, ha, h.2.symm, h.1.symm, by rw [G.hasEdge_comm]; exact hab⟩
+  · rintro ⟨a, ha, b, hb, rfl, rfl, hab⟩
+    exact ⟨_, (mem_subRaw g hwf loc ren _).2 ⟨a, ha, b, hb, hab, rfl⟩, Or.inl rfl⟩
+
+/-- non-vacuity of `subgraph_quotient_spec` (the instance of `subgraph_weak_check_witness`) -/
+example : let g : G := ⟨3, [(0, 1)]⟩
+    let loc := [0, 1, 2]
+    let ren := [(0, 0), (1, 2), (2, 2)]
+    g.WF ∧ ChecksOK g loc ren ∧
+      ¬ ∃ a ∈ loc, ∃ b ∈ loc, g.hasEdge a b = true ∧ lookup ren a = lookup ren b := by
+  refine ⟨by unfold G.WF; decide, (checksB_iff _ _ _).1 (by decide), by decide⟩
+
+/-- with the default renumbering the only errors are an invalid or empty location -/
+theorem subgraph_default_none_iff (g : G) (hwf : g.WF) (loc : List Nat) :
+    g.subgraph loc none = none ↔ ¬ (loc.Nodup ∧ ∀ q ∈ loc, q < g.n) ∨ loc = [] := by
+  constructor
+  · intro hnone
+    by_cases h1 : loc.Nodup ∧ ∀ q ∈ loc, q < g.n
+    case neg => exact Or.inl h1
+    by_cases h4 : loc = []
+    case pos => exact Or.inr h4
+    obtain ⟨h, hh, _⟩ := subgraph_default_spec g hwf loc h4 h1.1 h1.2
+    rw [hnone] at hh
+    exact absurd hh (by simp)
+  · intro h
+    rw [subgraph_default, subgraph_none_iff g hwf]
+    rcases h with h | h
+    · exact Or.inl h
+    · exact Or.inr (Or.inr (Or.inr (Or.inl h)))
+
+
+/-! ### remaining non-vacuity instances -/
+/-- `lookup_zipIdx` -/
+example : (2 : Nat) ∈ [3, 1, 2] ∧ lookup [3, 1, 2].zipIdx 2 = 2 := by decide
+/-- the guard `a ∈ loc` of `lookup_zipIdx` is needed: `lookup` defaults to 0, `idxOf` to the length -/
+example : lookup [3, 1, 2].zipIdx 7 = 0 ∧ [3, 1, 2].idxOf 7 = 3 := by decide
+/-- `subgraph_none_iff`, `subgraph_default_none_iff` (graph of the examples above) -/
+example : (G.mk 3 [(0, 1)]).WF := by unfold G.WF; decide
+
 end BqVerif.Graph
